@@ -156,7 +156,7 @@ var stmtFaults = []string{"unknown-node-by-name", "unknown-node-by-expression", 
 
 func (c06) Thresholds(tier string) map[string]int64 {
 	th := map[string]int64{
-		"faults-reached":                     2500,
+		"faults-reached":                     1800,
 		"faults-not-reached":                 100,
 		"post-error-next-calls":              60000,
 		"long-non-yielding-run":              1,
@@ -168,13 +168,13 @@ func (c06) Thresholds(tier string) map[string]int64 {
 		"restored-from-own-initial-snapshot": 800,
 	}
 	for _, f := range exprFaults {
-		th["reached:"+f.name] = 40
+		th["reached:"+f.name] = 15
 	}
 	for _, f := range stmtFaults {
-		th["reached:"+f] = 40
+		th["reached:"+f] = 15
 	}
 	for _, p := range exprPositions {
-		th["reached-at:"+p] = 30
+		th["reached-at:"+p] = 15
 	}
 	return th
 }
